@@ -30,7 +30,8 @@ the failure persists) and classified into exactly one signature:
     C04:label-name-unvalidated:<source>      F20 class (C03): a label name the library itself rejects reached the exposition
     C04:parser-only-rule:<class>             content that breaks no C15 rule but that the library's own parser rejects (or changes):
                                              negative-gsum-nonnegative-buckets, sum-with-negative-buckets, sum-without-count,
-                                             le-not-canonical, group-resumed, duplicate-series-same-timestamp
+                                             count-without-sum (F17's rule through a custom collector), le-not-canonical,
+                                             group-resumed, duplicate-series-same-timestamp
     C04:<what differs>                       anything else (never expected)
 T2: `expo om <families>` of the driver = the real bytes; `om parse` = the real parse (families or error class) on every
 exposition and on every document of (b); corecheck.run(ctx).
@@ -302,6 +303,8 @@ def hist_breaks(m):
         neg = any(b < 0 for b, _ in buckets)
         if (has_sum or gsums) and not counts:
             out.append('~sum-without-count')
+        if counts and not (has_sum or gsums):
+            out.append('~count-without-sum')
         if neg and has_sum:
             out.append('~sum-with-negative-buckets')
         if not neg and any(g is not None and g < 0 for g in gsums):
@@ -378,7 +381,8 @@ def real_parse_fams(text, legacy):
 PARSER_ONLY = {
     'negative-gsum-nonnegative-buckets': 'Cannot have negative _gsum with non-negative buckets',
     'sum-with-negative-buckets': 'Cannot have _sum with negative buckets',
-    'sum-without-count': ' must be present if _',             # _count … if _sum / _gcount … if _gsum (told apart from F17 below)
+    'sum-without-count': 'count must be present if _',        # _count … if _sum / _gcount … if _gsum
+    'count-without-sum': '_sum/_gsum must be present if _count is present',   # F17's rule, through a custom collector
     'le-not-canonical': 'Invalid le label',
     'group-resumed': 'Invalid metric grouping',
     'duplicate-series-same-timestamp': None,                  # no error: the repeated sample is dropped
@@ -437,7 +441,8 @@ def evaluate(spec):
         fail = ('parse-raises-' + outcome[1], 'parsing the exposition raised %s in %s; expected the exposed families' % (outcome[1], outcome[2]))
     else:
         fail = cmp_families(metrics, outcome[1])
-    return {'metrics': metrics, 'text': text, 'outcome': outcome, 'fail': fail, 'parser_only': parser_only, 'msg': PARSE_MSG[0]}
+    return {'metrics': metrics, 'text': text, 'outcome': outcome, 'fail': fail, 'parser_only': parser_only, 'msg': PARSE_MSG[0],
+            'failkey': None if fail is None else fail[0] + '|' + PARSE_MSG[0].split(':')[0][:60]}
 
 
 # ------------------------------------------------------------------------------------------------- minimise + classify
@@ -525,14 +530,15 @@ def simplify(spec, path):
 
 
 def minimise(spec, cls, budget_s=3.0):
-    """smaller spec that still fails with the same failure class"""
+    """smaller spec that still fails with the same failure class (and the same parser message, so that minimisation cannot drift
+    from one cause to another)"""
     t0 = time.time()
 
     def fails(sp):
         if time.time() - t0 > budget_s:
             return False
         r = evaluate(sp)
-        return r.get('fail') is not None and r['fail'][0] == cls
+        return r.get('failkey') == cls
     fams = list(spec['families'])
     if len(fams) > 1:
         for f in fams:
@@ -605,13 +611,21 @@ def classify(spec, res):
             for k in s.labels:
                 if k.startswith('__') or (legacy and not LEG_LABEL.fullmatch(k)):
                     return 'C04:label-name-unvalidated:' + f['src']
+    # F17: in-process Histogram with a negative first bound: `_count` without `_sum`
+    if cls.startswith('parse-raises-ValueError'):
+        for f, m in zip(spec['families'], metrics) if len(spec['families']) == len(metrics) else []:
+            if f['src'] == 'class:Histogram' and m.type == 'histogram':
+                names = {s.name for s in m.samples}
+                les = [fnum(s.labels.get('le')) for s in m.samples if s.name == m.name + '_bucket']
+                if m.name + '_count' in names and m.name + '_sum' not in names and any(b is not None and b < 0 for b in les):
+                    return 'C04:negative-bound-count-without-sum'
     # rules the parser enforces beyond C15 (attributed by the parser's own message)
     po = res.get('parser_only') or []
     msg = res.get('msg') or ''
     if cls.startswith('parse-raises-ValueError'):
         for name in po:
             pat = PARSER_ONLY[name]
-            if pat and pat in msg and not msg.startswith('_sum/_gsum must be present'):
+            if pat and pat in msg:
                 return 'C04:parser-only-rule:' + name
     if cls == 'sample-count' and 'duplicate-series-same-timestamp' in po and not exposed_ts_kinds(metrics):
         return 'C04:parser-only-rule:duplicate-series-same-timestamp'
@@ -630,14 +644,6 @@ def classify(spec, res):
         return 'C04:negative-subsecond-timestamp'
     if 'exp-mantissa' in kinds and cls in ('timestamp', 'exemplar-timestamp'):
         return 'C04:exponent-float-timestamp-mantissa'
-    # F17: in-process Histogram with a negative first bound: `_count` without `_sum`
-    if cls.startswith('parse-raises-ValueError'):
-        for f, m in zip(spec['families'], metrics) if len(spec['families']) == len(metrics) else []:
-            if f['src'] == 'class:Histogram' and m.type == 'histogram':
-                names = {s.name for s in m.samples}
-                les = [fnum(s.labels.get('le')) for s in m.samples if s.name == m.name + '_bucket']
-                if m.name + '_count' in names and m.name + '_sum' not in names and any(b is not None and b < 0 for b in les):
-                    return 'C04:negative-bound-count-without-sum'
     return 'C04:' + cls
 
 
@@ -940,9 +946,10 @@ def corpus_specs():
                                               'adds': [{'lv': [], 'buckets': [['1.0', Z], ['+Inf', O]], 'gsum': fb(-0.5), 'ts': None}]}])))
         out.append(('corpus:parser-only', R([{'src': 'helper:HistogramMetricFamily', 'name': 'hh', 'help': 'h', 'labels': [], 'direct': True,
                                               'adds': [{'lv': [], 'buckets': [['1.0', Z], ['inf', O]], 'sum': fb(0.5), 'ts': None}]}])))
-        out.append(('corpus:parser-only', R([{'src': 'helper:HistogramMetricFamily', 'name': 'hn', 'help': 'h', 'labels': [], 'direct': True,
-                                              'adds': [{'lv': [], 'buckets': [['-1.0', Z], ['+Inf', O]], 'sum': fb(0.5), 'ts': None}]}])))
+        out.append(('corpus:parser-only', R([raw('hn', 'histogram', [smp('hn_bucket', [('le', '-1.0')], value=Z), smp('hn_bucket', [('le', '+Inf')], value=O),
+                                                                     smp('hn_count', value=O), smp('hn_sum', value=fb(0.5))])])))
         out.append(('corpus:parser-only', R([raw('hs', 'histogram', [smp('hs_bucket', [('le', '+Inf')], value=O), smp('hs_sum', value=ONE)])])))
+        out.append(('corpus:parser-only', R([raw('hc', 'histogram', [smp('hc_bucket', [('le', '+Inf')], value=O), smp('hc_count', value=O)])])))
         out.append(('corpus:parser-only', R([raw('gr', 'gauge', [smp('gr', [('a', '1')]), smp('gr', [('a', '2')]), smp('gr', [('a', '1')], value=fb(2.0))])])))
         out.append(('corpus:parser-only', R([raw('du', 'gauge', [smp('du', [('a', '1')]), smp('du', [('a', '1')], value=fb(2.0))])])))
         # F17
@@ -1231,15 +1238,16 @@ class Runner:
     def record_fail(self, spec, res):
         cls = res['fail'][0]
         self.ctx.count('fail-class:' + cls)
-        if sum(1 for r in self.records if r[3] == cls) >= 6:
+        capkey = cls + '|' + (res.get('msg') or '').split(':')[0][:60]        # a cap per failure class and parser message
+        if sum(1 for r in self.records if r[3] == capkey) >= 4:
             return
-        small = minimise(spec, cls)
+        small = minimise(spec, res['failkey'])
         r2 = evaluate(small)
-        if r2.get('fail') is None or r2['fail'][0] != cls:
+        if r2.get('failkey') != res['failkey']:
             small, r2 = spec, res
         sig = classify(small, r2)
         self.sig_count[sig] = self.sig_count.get(sig, 0) + 1
-        self.records.append((sig, '%s — %s; exposition %r' % (r2['fail'][0], r2['fail'][1][:400], (r2.get('text') or '')[:300]), small, cls))
+        self.records.append((sig, '%s — %s; exposition %r' % (r2['fail'][0], r2['fail'][1][:400], (r2.get('text') or '')[:300]), small, capkey))
 
     def run_doc(self, origin, doc, legacy):
         ctx = self.ctx
